@@ -27,6 +27,11 @@ theorem lit_eq_some {p s r : List Char} (h : lit p s = some r) : s = p ++ r := b
       · rename_i hac; subst hac; simp [ih h]
       · cases h
 
+/-- characters accepted by Go's hex.DecodeString -/
+def isHex (c : Char) : Bool :=
+  (decide (48 ≤ c.toNat) && decide (c.toNat ≤ 57)) || (decide (97 ≤ c.toNat) && decide (c.toNat ≤ 102)) ||
+  (decide (65 ≤ c.toNat) && decide (c.toNat ≤ 70))
+
 /-- decimal digits of a natural number (Go `strconv.FormatUint(n, 10)`) -/
 abbrev dec (n : Nat) : List Char := Nat.toDigits 10 n
 
